@@ -2,7 +2,7 @@
 C06 - emphasis nesting equals the specification's delimiter-run algorithm.
 
 Decided statically (finite decision tables and object invariants; the stack surgery of
-process_emphasis is NOT decided):
+process_emphasis for bounded families of delimiter stacks):
   R-FLANK        is_left_delimiter / is_right_delimiter / is_opener / is_closer, evaluated
                  abstractly over (char class before) x (char class after) x delimiter x run
                  length, equal the tables of CommonMark 0.30 section 6.2.
@@ -11,8 +11,8 @@ process_emphasis is NOT decided):
   R-RULE3        Delimiter.closed_by over (length mod 3) x flags equals rules 9/10.
   R-RULE3-PROV   the lengths closed_by reads are never rewritten after __init__ (original lengths).
   R-INV-DELIM    len(type) == number == end - start is preserved by Delimiter.remove (affine lengths).
-  R-BOTTOM-KEY   the opener-search lower bound is keyed by every closer attribute the search
-                 predicate depends on (memo-key soundness).
+  R-STACK-SIM    process_emphasis, interpreted on every delimiter stack of a bounded family (symbolic
+                 positions), records exactly the matches of the specification's algorithm.
   R-STRONG-N     strong iff both runs >= 2, and match/content spans agree with n (affine).
 """
 
@@ -33,10 +33,12 @@ EXPLANATION = (
     "delimiter and run length and compared with the tables computed from CommonMark 0.30 6.2; "
     "closed_by is evaluated over lengths modulo 3 and the four open/close flags against rules 9/10; "
     "the Delimiter invariant len(type)=number=end-start is checked through remove() in an affine "
-    "length domain; a dependency-set rule checks that the opener-search bound is keyed by every "
-    "closer attribute the search predicate reads; the strong/emphasis span arithmetic is normalised "
-    "affinely. Exhaustive over the finite abstract spaces. The delimiter-stack surgery and thus the "
-    "equality of the whole <em>/<strong> structure for all strings is not decided.")
+    "length domain; process_emphasis itself is interpreted on delimiter stacks with symbolic positions "
+    "- every stack of up to three runs, and families of four to six runs - and the matches it records "
+    "(spans, kinds) are compared with a transcription of the specification's algorithm on the same "
+    "stack, which decides the stack surgery, the per-kind opener bounds and the rule of three on "
+    "original lengths for those families. Exhaustive over the finite abstract spaces; stacks outside "
+    "the families, the scanner that builds the stack, and the interaction with links are not decided.")
 
 CLASSES = ('ws', 'apunct', 'upunct', 'other', 'EDGE')
 
@@ -304,14 +306,17 @@ def rule_rule3(ctx, rep):
     fi = model.method('core_tokens.Delimiter', 'closed_by')
     unit = model.unit_of(fi)
     rep.instance('R-RULE3')
+    read = attrs_read_on_param(fi.node, fi.params()[1]) | attrs_read_on_param(fi.node, fi.params()[0])
     flags = [(a, b) for a in (False, True) for b in (False, True)]
     for (oc, cc), om, cm, of, cf in itertools.product([('*', '*'), ('_', '_'), ('*', '_'), ('_', '*')],
                                                       range(3), range(3), flags, flags):
         if not of[0] or not cf[1]:
             # closed_by is only consulted for an opener that can open and a closer that can close
             continue
-        opener = Obj(cls, {'type': oc * 2, 'number': Mod3(om), 'open': of[0], 'close': of[1]})
-        closer = Obj(cls, {'type': cc * 2, 'number': Mod3(cm), 'open': cf[0], 'close': cf[1]})
+        # every attribute closed_by reads besides the character and the flags is a run length, known modulo 3
+        lens = sorted(read - {'type', 'open', 'close'})
+        opener = Obj(cls, dict({'type': oc * 2, 'open': of[0], 'close': of[1]}, **{a: Mod3(om) for a in lens}))
+        closer = Obj(cls, dict({'type': cc * 2, 'open': cf[0], 'close': cf[1]}, **{a: Mod3(cm) for a in lens}))
         want = (oc == cc) and flanking.rule_of_three(om, cm, of[0] and of[1], cf[0] and cf[1])
         it = Interp(model)
         it.reset_run(Oracle())
@@ -343,7 +348,7 @@ def rule_rule3(ctx, rep):
                 tgts = n.targets if isinstance(n, ast.Assign) else [n.target]
                 for t in tgts:
                     if isinstance(t, ast.Attribute) and isinstance(t.value, ast.Name) and t.value.id == selfname \
-                            and t.attr in read and t.attr in ('number', 'open', 'close'):
+                            and t.attr in read and t.attr != 'type':     # type[0], the character, survives shortening
                         rep.obligation('R-RULE3-PROV', False, {'method': m.short, 'attr': t.attr})
                         rep.find('R-RULE3-PROV', m.short, 'self.%s' % t.attr,
                                  'closed_by reads .%s, which %s rewrites after construction: the rule of three is '
@@ -423,72 +428,6 @@ def rule_inv_delim(ctx, rep):
     rep.floor('R-INV-DELIM', rep.rules['R-INV-DELIM']['obligations'], 3)
 
 
-def rule_bottom_key(ctx, rep):
-    """Memo-key soundness of the opener-search lower bounds in process_emphasis."""
-    model = ctx.model
-    rep.rule('R-BOTTOM-KEY', 'opener-search bound is keyed by every closer attribute the search predicate reads')
-    pe = model.func('core_tokens.process_emphasis')
-    mo = model.func('core_tokens.matching_opener')
-    nc = model.func('core_tokens.next_closer')
-    cb = model.method('core_tokens.Delimiter', 'closed_by')
-    unit = model.unit_of(pe)
-    rep.instance('R-BOTTOM-KEY')
-    # 1. attributes of the closer read by the search predicate
-    closer_param = mo.params()[0]
-    read = set()
-    calls_closed_by = False
-    for n in walk_function(mo.node):
-        if isinstance(n, ast.Call) and isinstance(n.func, ast.Attribute) and n.func.attr == cb.name:
-            calls_closed_by = True
-    if not calls_closed_by:
-        raise AnalysisError('matching_opener no longer consults Delimiter.closed_by')
-    read |= attrs_read_on_param(cb.node, cb.params()[1])
-    # 2. attributes fixed for every closer by next_closer's filter
-    fixed = set()
-    for n in walk_function(nc.node):
-        if isinstance(n, ast.If):
-            for x in ast.walk(n.test):
-                if isinstance(x, ast.Attribute) and isinstance(x.ctx, ast.Load) and isinstance(x.value, ast.Name):
-                    if not _is_hasattr_arg(x):
-                        fixed.add(x.attr)
-    # 3. key attributes: how the bound passed to matching_opener is selected
-    defs = single_defs(pe.node)
-    key_attrs = None
-    closer_names = set()
-    for n in walk_function(pe.node):
-        if isinstance(n, ast.Call) and isinstance(n.func, ast.Name) and n.func.id == mo.name and len(n.args) >= 3:
-            b = n.args[2]
-            src = defs.get(b.id) if isinstance(b, ast.Name) else b
-            if src is None and isinstance(b, ast.Name):
-                # look for the assignment(s) to that name
-                cands = [a.value for a in walk_function(pe.node) if isinstance(a, ast.Assign)
-                         and any(isinstance(t, ast.Name) and t.id == b.id for t in a.targets)]
-                sel = [c for c in cands if isinstance(c, (ast.IfExp, ast.Subscript, ast.Call))]
-                src = sel[0] if sel else None
-            if isinstance(src, ast.IfExp):
-                key_attrs = _attr_names(src.test)
-            elif isinstance(src, ast.Subscript):
-                key_attrs = _attr_names(src.slice)
-            elif isinstance(src, ast.Call):
-                key_attrs = set()
-                for a in src.args:
-                    key_attrs |= _attr_names(a)
-    if key_attrs is None:
-        raise AnalysisError('process_emphasis: form of the opener-search bound not recognised')
-    # attributes through which a length matters only modulo 3 and only with both flags are still dependencies
-    missing = sorted((read - fixed) - key_attrs)
-    ok = not missing
-    rep.obligation('R-BOTTOM-KEY', ok, {'predicate_reads': sorted(read), 'fixed_by_next_closer': sorted(fixed),
-                                       'bound_keyed_by': sorted(key_attrs), 'missing': missing})
-    if not ok:
-        rep.find('R-BOTTOM-KEY', 'core_tokens.process_emphasis', 'bottom-key',
-                 'the lower bound recorded after a failed opener search is selected by closer.{%s} only, but the '
-                 'search predicate (Delimiter.closed_by) also depends on closer.{%s}: a bound recorded for one closer '
-                 'wrongly prunes the search for a later closer with different flags or length mod 3'
-                 % (','.join(sorted(key_attrs)), ','.join(missing)), loc(unit, pe.node),
-                 witness='*_**.*')
-
-
 def _is_hasattr_arg(x):
     return False
 
@@ -546,18 +485,16 @@ def rule_strong_n(ctx, rep):
     dcls = model.cls('core_tokens.Delimiter')
     rep.instance('R-STRONG-N')
     n_cases = 0
-    OE, CS = Aff.sym('opener_end'), Aff.sym('closer_start')
     for ch, ko, kc in itertools.product('*_', (1, 2, 3, 4), (1, 2, 3, 4)):
+        OE, CS = Aff.sym('p0').add(Aff({}, ko)), Aff.sym('p1')      # opener = run 0 ends at p0 + ko; closer = run 1 starts at p1
         it = Interp(model, loop_bound=8, while_bound=12)
         it.reset_run(Oracle())
-        opener = Obj(dcls, {'type': ch * ko, 'number': ko, 'active': True, 'start': OE.add(Aff({}, -ko)), 'end': OE,
-                            'open': True, 'close': False})
-        closer = Obj(dcls, {'type': ch * kc, 'number': kc, 'active': True, 'start': CS, 'end': CS.add(Aff({}, kc)),
-                            'open': False, 'close': True})
+        dels = [{'ch': ch, 'n': ko, 'open': True, 'close': False}, {'ch': ch, 'n': kc, 'open': False, 'close': True}]
+        opener, closer = _make_delimiters(model, it, dels)
         matches = []
         problems = []
         try:
-            it.call_function(pe, [SymString(), None, [opener, closer], matches], {})
+            it.call_function(pe, [RunString(dels), None, [opener, closer], matches], {})
         except Raised as r:
             problems.append('raises %s' % r.exc.kind)
         except InterpError as e:
@@ -597,6 +534,282 @@ def rule_strong_n(ctx, rep):
     rep.floor('R-STRONG-N', n_cases, 32)
 
 
+def spec_emphasis(dels):
+    """CommonMark 0.30, "process emphasis", on a stack of delimiter runs given as dicts
+    (ch, n = original length, open, close). Returns the set of (opener index, characters of the opener
+    already used, closer index, characters of the closer already used, k) with k = 1 (emphasis) or 2 (strong).
+    The openers_bottom bookkeeping of the specification is an optimisation that never changes the result
+    and is left out."""
+    stack = [dict(d, cur=d['n'], id=i, ul=0, ur=0) for i, d in enumerate(dels)]     # ul / ur: characters used up at the left / right end
+    out = []
+    pos = 0
+    guard = 0
+    while guard < 400:
+        guard += 1
+        while pos < len(stack) and not stack[pos]['close']:
+            pos += 1
+        if pos >= len(stack):
+            break
+        closer = stack[pos]
+        found = None
+        for j in range(pos - 1, -1, -1):
+            op = stack[j]
+            if not op['open'] or op['ch'] != closer['ch']:
+                continue
+            lo, lc = op['n'], closer['n']          # the lengths of the runs as written
+            if (op['open'] and op['close']) or (closer['open'] and closer['close']):
+                if (lo + lc) % 3 == 0 and not (lo % 3 == 0 and lc % 3 == 0):
+                    continue
+            found = j
+            break
+        if found is not None:
+            op = stack[found]
+            k = 2 if op['cur'] >= 2 and closer['cur'] >= 2 else 1
+            out.append((op['id'], op['ur'], closer['id'], closer['ul'], k))
+            del stack[found + 1:pos]
+            pos = found + 1
+            op['cur'] -= k
+            op['ur'] += k          # an opener gives up characters at its right (inner) end
+            closer['cur'] -= k
+            closer['ul'] += k      # a closer gives up characters at its left (inner) end
+            if op['cur'] == 0:
+                stack.remove(op)
+                pos -= 1
+            if closer['cur'] == 0:
+                stack.remove(closer)
+        else:
+            if not closer['open']:
+                stack.pop(pos)
+            else:
+                pos += 1
+    return sorted(out)
+
+
+def known_deviation_model(dels, rule3_current, coarse_bottom):
+    """The specification's algorithm with this code base's two recorded deviations switched on (and its way of
+    stepping through the stack, which alone never changes the result): used only to tell whether a difference
+    from the specification is one of the known findings or something new."""
+    stack = [dict(d, cur=d['n'], id=i, ul=0, ur=0) for i, d in enumerate(dels)]
+    out = []
+    bottoms = {'*': None, '_': None}
+
+    def next_closer(pos):
+        for i in range(pos, len(stack)):
+            if stack[i]['close']:
+                return i
+        return None
+    pos = next_closer(0)
+    guard = 0
+    while pos is not None and guard < 400:
+        guard += 1
+        closer = stack[pos]
+        bottom = bottoms[closer['ch']] if coarse_bottom else None
+        found = None
+        if pos > 0:
+            for j in range(pos - 1, -1 if bottom is None else bottom, -1):
+                op = stack[j]
+                if not op['open'] or op['ch'] != closer['ch']:
+                    continue
+                lo, lc = (op['cur'], closer['cur']) if rule3_current else (op['n'], closer['n'])
+                if (op['open'] and op['close']) or (closer['open'] and closer['close']):
+                    if (lo + lc) % 3 == 0 and not (lo % 3 == 0 and lc % 3 == 0):
+                        continue
+                found = j
+                break
+        if found is not None:
+            op = stack[found]
+            k = 2 if op['cur'] >= 2 and closer['cur'] >= 2 else 1
+            out.append((op['id'], op['ur'], closer['id'], closer['ul'], k))
+            del stack[found + 1:pos]
+            pos = found + 1
+            op['cur'] -= k
+            op['ur'] += k
+            closer['cur'] -= k
+            closer['ul'] += k
+            if op['cur'] == 0:
+                stack.remove(op)
+                pos -= 1
+            if closer['cur'] == 0:
+                stack.remove(closer)
+                pos -= 1
+            if pos < 0:
+                pos = 0
+        else:
+            bottoms[closer['ch']] = pos - 1 if pos > 1 else None
+            if not closer['open']:
+                stack.pop(pos)
+            else:
+                pos += 1
+        pos = next_closer(pos)
+    return sorted(out)
+
+
+class RunString(SymString):
+    """The scanned string around a stack of delimiter runs: run i occupies [p_i, p_i + n_i)."""
+
+    def __init__(self, dels):
+        self.dels = dels
+
+    def abs_getitem(self, interp, idx):
+        if isinstance(idx, slice):
+            lo, hi = Aff.lift(idx.start), Aff.lift(idx.stop)
+            for i, d in enumerate(self.dels):
+                P = Aff.sym('p%d' % i)
+                if lo is not None and hi is not None and lo.add(P, -1).is_const() and hi.add(P, -1).is_const():
+                    a, b = lo.add(P, -1).const, hi.add(P, -1).const
+                    if 0 <= a <= b <= d['n']:
+                        return d['ch'] * (b - a)
+            return SymString.abs_getitem(self, interp, idx)
+        a = Aff.lift(idx)
+        for i, d in enumerate(self.dels):
+            P = Aff.sym('p%d' % i)
+            if a is not None and a.add(P, -1).is_const() and 0 <= a.add(P, -1).const < d['n']:
+                return d['ch']
+        return SymString.abs_getitem(self, interp, idx)
+
+
+def _make_delimiters(model, it, dels):
+    """Delimiter objects built by the class's own constructor (so that whatever it records is there), with the
+    flanking predicates answering as the stack under test prescribes."""
+    dcls = model.cls('core_tokens.Delimiter')
+    string = RunString(dels)
+
+    def flag(which):
+        def hook(interp, fi, args, kwargs):
+            st = Aff.lift(args[0])
+            for i, d in enumerate(dels):
+                if st is not None and st == Aff.sym('p%d' % i):
+                    return d[which]
+            return Unknown('flank')
+        return hook
+    for fname, which in (('is_opener', 'open'), ('is_closer', 'close')):
+        if not model.has_func('core_tokens.' + fname):
+            raise AnalysisError('anchor vanished: core_tokens.%s' % fname)
+        it.func_hooks[model.func('core_tokens.' + fname).qualname] = flag(which)
+    objs = []
+    for i, d in enumerate(dels):
+        P = Aff.sym('p%d' % i)
+        objs.append(it.construct(dcls, [P, P.add(Aff({}, d['n'])), string], {}))
+    for f in ('is_opener', 'is_closer'):
+        it.func_hooks.pop(model.func('core_tokens.' + f).qualname, None)
+    return objs
+
+
+def _stack_chunk(args):
+    """Worker: interpret process_emphasis on each stack of a chunk; returns (n, known counts, unexplained)."""
+    model, combos = args
+    pe = model.func('core_tokens.process_emphasis')
+    dcls = model.cls('core_tokens.Delimiter')
+    known = {'rule3-current': 0, 'coarse-bottom': 0}
+    new = []
+    for combo in combos:
+        dels = [{'ch': ch, 'n': n, 'open': o, 'close': c} for ch, n, o, c in combo]
+        it = Interp(model, loop_bound=16, while_bound=60)
+        it.reset_run(Oracle())
+        objs = _make_delimiters(model, it, dels)
+        matches = []
+        try:
+            it.call_function(pe, [RunString(dels), None, list(objs), matches], {})
+            got = []
+            for m in matches:
+                st = Aff.lift(it.call(it.getattr(m, 'start'), [], {}))
+                en = Aff.lift(it.call(it.getattr(m, 'end'), [], {}))
+                got.append((repr(st), repr(en), it.getattr(m, 'type')))
+            got = sorted(got)
+        except Raised as r:
+            got = 'raises %s' % r.exc.kind
+        except InterpError as e:
+            raise AnalysisError('process_emphasis could not be interpreted on %r: %s' % (combo, e))
+
+        def spans(pairs):
+            out = []
+            for oi, ur, ci, ul, k in pairs:
+                st = Aff.sym('p%d' % oi).add(Aff({}, dels[oi]['n'] - ur - k))
+                en = Aff.sym('p%d' % ci).add(Aff({}, ul + k))
+                out.append((repr(st), repr(en), 'Strong' if k == 2 else 'Emphasis'))
+            return sorted(out)
+        want = spans(spec_emphasis(dels))
+        label = ' '.join('%s%s%s' % (d['ch'] * d['n'], 'o' if d['open'] else '', 'c' if d['close'] else '') for d in dels)
+        if spans(known_deviation_model(dels, False, False)) != want:
+            raise AnalysisError('the deviation model disagrees with the specification algorithm on [%s]' % label)
+        if got == want:
+            continue
+        # describe the difference when it is one of the two deviations this code base once had
+        if got == spans(known_deviation_model(dels, True, False)):
+            known['rule3-current'] += 1
+            why = 'the rule of three is applied to what is left of the runs, not to their lengths as written'
+        elif got == spans(known_deviation_model(dels, False, True)) or got == spans(known_deviation_model(dels, True, True)):
+            known['coarse-bottom'] += 1
+            why = 'an opener-search bound recorded for one kind of closer cuts off the search for another kind'
+        else:
+            why = None
+        new.append((label, got, want, why))
+    return len(combos), known, new[:5], len(new)
+
+
+def rule_stack_sim(ctx, rep):
+    """The delimiter-stack surgery of process_emphasis, decided for bounded stacks: process_emphasis itself is
+    interpreted (helpers followed) on a stack of Delimiter objects with symbolic positions and the set of
+    matches it records is compared with the specification's algorithm on the same stack. Families of stacks:
+    every stack of two or three runs (character, length 1..3, opener / closer / both); stacks of four and five
+    runs that can all both open and close (where the rule of three and the opener bounds interact); every
+    stack of five single-character runs (where bounds outlive the part of the stack they pointed into); in
+    the thorough tier also every stack of four runs of length 1..2, five and six both-flanking runs, and six
+    single-character runs."""
+    from ..par import pmap
+    model = ctx.model
+    rule = 'R-STACK-SIM'
+    rep.rule(rule, 'for bounded delimiter stacks, process_emphasis records exactly the matches of the specification\'s algorithm')
+    pe = model.func('core_tokens.process_emphasis')
+    unit = model.unit_of(pe)
+    flags = ((True, False), (False, True), (True, True))
+    kinds = [(ch, n, o, c) for ch in '*_' for n in (1, 2, 3) for (o, c) in flags]
+    both3 = [(ch, n, True, True) for ch in '*_' for n in (1, 2, 3)]
+    both2 = [(ch, n, True, True) for ch in '*_' for n in (1, 2)]
+    ones = [(ch, 1, o, c) for ch in '*_' for (o, c) in flags]
+    families = [('2 runs', itertools.product(kinds, repeat=2)), ('3 runs', itertools.product(kinds, repeat=3)),
+                ('4 runs, all both-flanking', itertools.product(both3, repeat=4)),
+                ('5 runs, all both-flanking, length 1..2', itertools.product(both2, repeat=5)),
+                ('5 runs, length 1', itertools.product(ones, repeat=5))]
+    if ctx.thorough:
+        small = [(ch, n, o, c) for ch in '*_' for n in (1, 2) for (o, c) in flags]
+        families += [('4 runs, length 1..2', itertools.product(small, repeat=4)),
+                     ('5 runs, all both-flanking', itertools.product(both3, repeat=5)),
+                     ('6 runs, all both-flanking, length 1..2', itertools.product(both2, repeat=6)),
+                     ('6 runs, length 1', itertools.product(ones, repeat=6))]
+    rep.instance(rule)
+    total = 0
+    known = {'rule3-current': 0, 'coarse-bottom': 0}
+    new, n_new = [], 0
+    per_family = {}
+    for name, gen in families:
+        combos = list(gen)
+        chunks = [combos[i:i + 400] for i in range(0, len(combos), 400)]
+        fam_new = 0
+        for n, kn, nw, cnt in pmap(_stack_chunk, [(model, ch) for ch in chunks]):
+            total += n
+            for k in known:
+                known[k] += kn[k]
+            new.extend(nw)
+            n_new += cnt
+            fam_new += cnt
+        per_family[name] = {'stacks': len(combos), 'unexplained': fam_new}
+    rep.extra['stack_sim'] = {'stacks': total, 'families': per_family, 'differences': n_new, 'of which recognised deviations': known}
+    rep.obligation(rule, not new, {'stacks': total, 'differences': n_new, 'recognised deviations': known,
+                                   'examples': [x[0] for x in new[:5]]})
+    shown = set()
+    for label, got, want, why in new:
+        if why in shown or len(shown) >= 3:
+            continue
+        shown.add(why)
+        rep.find(rule, 'core_tokens.process_emphasis', 'stack-differs:%s' % ('rule-of-three-on-remaining-lengths' if why and 'rule of three' in why
+                                                                             else 'opener-bound-too-coarse' if why else 'other'),
+                 'on the delimiter stack [%s] (run, o = can open, c = can close) process_emphasis records %s; the '
+                 'specification\'s algorithm gives %s%s (%d of %d stacks differ)'
+                 % (label, got, want, (' - ' + why) if why else '', n_new, total), loc(unit, pe.node))
+    rep.floor(rule, total, 300)
+
+
 def run(ctx):
     rep = ctx.report
     rule_flank(ctx, rep)
@@ -604,8 +817,8 @@ def run(ctx):
     rule_flank_wired(ctx, rep)
     rule_rule3(ctx, rep)
     rule_inv_delim(ctx, rep)
-    rule_bottom_key(ctx, rep)
     rule_strong_n(ctx, rep)
+    rule_stack_sim(ctx, rep)
     rep.assume('abstract neighbour classes are exhaustive: whitespace, ASCII punctuation, non-ASCII Unicode '
                'punctuation, anything else, line edge')
     rep.assume('run lengths influence closed_by only modulo 3 (any other use is reported)')
